@@ -161,7 +161,7 @@ def one_round(res, pid, seed, n, rnd):
         if not ok:
             res.violations.append(dict(signature='C20/glue:' + name, what='constructor / error-path expectation failed: ' + name, case=name))
     groups = [('pub', pub_case, describe_pub, 'pub_case', ['c20_pub_mismatches cases', 'c20_pub_violations cases']),
-              ('sub', sub_case, describe_sub, 'sub_case', ['c20_sub_mismatches cases', 'c20_sub_violations cases'])]
+              ('sub', sub_case, describe_sub, 'sub_case', ['c20_sub_mismatches cases', 'c20_sub_violations cases', 'c20_sub_model_rejected cases'])]
     for key, term, desc, typ, fns in groups:
         good = []
         for c in data[key]:
@@ -193,7 +193,9 @@ def one_round(res, pid, seed, n, rnd):
                     res.nontrivial.add(('sub', shape(c['stack']), tuple(tuple(o) for o in c['ops'])))
         for part, chunk in enumerate(C.chunks(good, 150)):
             r = C.coq_eval(pid, 'cases_%s_%d_%d' % (key, rnd, part), HEADER + 'Definition cases : list %s := %s.\n' % (typ, L([term(c) for c in chunk])),
-                           [('R_mis', fns[0]), ('R_vio', fns[1])])
+                           [('R_mis', fns[0]), ('R_vio', fns[1])] + ([('R_self', fns[2])] if len(fns) > 2 else []))
+            for i in r.get('R_self', []):
+                res.mismatches.append(dict(kind='Decor.Monitor.sub_monitor rejects the MODEL\'s own run (acceptor and model disagree)', explained_by_violation=False, case=desc(chunk[i], strings)))
             for i in r['R_vio']:
                 what = ('decorated publisher rejected by Decor.Monitor.pub_monitor (one wrapped call with the same objects in order / error and Close pass through / each transform once / '
                         'delay metadata by precedence / nothing published on a rejected batch / one publish observation per counted call with the right label)') if key == 'pub' else \
